@@ -266,6 +266,38 @@ ROLE_FORMS = {
     "Reminders": ("remindersRequest",), "UpdateFirmware": ("firmwareRequest",),
 }
 LONG = {}        # class name -> [instance, previous message input]
+ACK_LONG = {}    # partial-update class name -> (instance, its recording socket)
+ACK_PREV = {}
+
+
+def ack_addressing(name, content, p2, p3):
+    """None | what is wrong with the STATQ the long-lived partial-update consumer queued for this STATP (received from
+    ip:port with SRCCN p3 and DESCN p2): it must go to that ip:port framed with SRCCN p2 / DESCN p3"""
+    ent = ACK_LONG.get(name)
+    if ent is None:
+        sock = _Sock()
+        ent = ACK_LONG[name] = (fresh(name, sock), sock)
+    h, sock = ent
+    sender = (IP[0], IP[1], p3, p2)
+    n0 = len(sock.sent)
+    try:
+        if name == "AsyncPartialStatusBlock":
+            run_coro(h.async_handle(content, sender))
+        else:
+            h.handle(content, sender)
+            h.changes.clear()                       # what the blocking client does after applying
+        new = sock.sent[n0:]
+        if len(new) != 1:
+            return {"acknowledgements_queued": len(new)}
+        got = new[0].send_bytes
+        want_prefix = b"<PACKT><SRCCN>" + p2 + b"</SRCCN><DESCN>" + p3 + b"</DESCN><DATAS>STATQ"
+        if not got.startswith(want_prefix):
+            ACK_LONG.pop(name, None)
+            return {"acknowledgement": hx(got[:120]), "expected_to_start_with": hx(want_prefix)}
+    except Exception as e:  # noqa
+        ACK_LONG.pop(name, None)
+        return {"raises": f"{type(e).__name__}: {e}"}
+    return None
 
 
 def reuse_decode(name, form, content, exp, this_input):
@@ -697,6 +729,14 @@ def oracle(form, args, p2, p3):
                 key = f"roundtrip:{form}:{name}:{'raises' if 'raises' in bad else '+'.join(sorted(bad))}"
             fails.append((key, {a: repr(v)[:120] for a, v in exp.items()}, bad))
         else:
+            if form == "partialUpdate":
+                # the acknowledgement the LONG-LIVED partial-update consumer queues is a reply to THIS packet: addressed back to its
+                # sender, identifiers swapped (whatever pairs the same consumer has acknowledged before)
+                r_ack = ack_addressing(name, content, p2, p3)
+                if r_ack is not None:
+                    fails.append((f"reply:ack:{name}", {"src": hx(p2), "dst": hx(p3), "to": list(IP)}, r_ack,
+                                  dict(msg_input(form, args, p2, p3), kind="ack", handler=name, previous=ACK_PREV.get(name))))
+                ACK_PREV[name] = msg_input(form, args, p2, p3)
             # the same message through the LONG-LIVED instance of that class
             me = msg_input(form, args, p2, p3)
             r = reuse_decode(name, form, content, exp, me)
@@ -1047,6 +1087,13 @@ def replay(inp):
         search_layout(c)
         v = [x for x in c.violations if x["input"].get("test") == inp.get("test")]
         return bool(v), [{"key": x["key"], "expected": x["expected"], "observed": x["observed"]} for x in v] or "vector reproduced by the real code"
+    if inp.get("kind") == "ack":
+        ACK_LONG.clear()
+        out = []
+        for m in ([inp["previous"]] if inp.get("previous") else []) + [dict(inp, kind="message")]:
+            f, args, p2, p3 = parse_input(dict(m, kind="message"))
+            out = [x for x in oracle(f, args, p2, p3) if x[0].startswith("reply:ack")]
+        return bool(out), [{"key": x[0], "expected": x[1], "observed": x[2]} for x in out] or "acknowledged to its sender, identifiers swapped"
     if inp.get("kind") == "reuse":
         LONG.clear()
         out = []
